@@ -17,6 +17,9 @@ CHECKS = {
  "C16": dict(cat="exploration", technique="token monitor on the real key generator/option builders + porcupine linearizability of concurrent issue/rollback histories + wire-level monitor on real OpenAPI over a fault-injecting HTTP cloud; race detector",
      text="Fail/retry scripts with options rebuilt from fresh maps (so Go's random map order is exercised), concurrent issue/rollback histories checked against a token-pool model per parameter set, and end-to-end runs of the real client.OpenAPI (ECS + EFLO SDK clients on a simulated HTTP cloud that implements ClientToken idempotency and injects before/after-effect faults): all wire attempts of one logical operation must carry one token and the cloud must end with one resource.",
      note="Cloud is simulated at the HTTP transport; SDK auto-retry disabled; a retrying caller is assumed to rebuild equal option values.", ref="§2 C16"),
+ "C17": dict(cat="exploration", technique="runtime oracle over the real SwitchPool: independent eligibility evaluator, caller-slice snapshot comparison, Block/expiry histories, 16-goroutine shared-pool/shared-slice stress under the race detector",
+     text="Each GetOne result is judged against an independent evaluator of (list membership, zone, free count, policy) on generated candidate lists, zones and counts; the caller's slice is compared with its pre-call copy; Block then re-select histories run on a 1h-TTL pool (must stay unchosen) and a 50ms-TTL pool probed 1.1s later (must be re-read); one pool and one candidate slice are shared by 16 goroutines under -race.",
+     note="VPC DescribeVSwitch is simulated; expiry is observed through real time with a ≥20× margin.", ref="§2 C17"),
 }
 NOT_YET = {}
 
